@@ -114,6 +114,51 @@ def chain_scenario(rng):
     return {"canc": [["none"]] * nd, "ops": ops + tail}
 
 
+def reentrant_scenario(rng):
+    """Deferreds waiting on each other; the waiting ones still have callbacks queued, some of which run kernel
+    operations when they execute (add a callback to their own Deferred or to one lower on the chain stack, fire /
+    pause / unpause another one); then the innermost fires (or is unpaused) and everything resumes from ITS walk"""
+    nd = rng.randrange(2, 5)
+    order = list(range(nd))
+    rng.shuffle(order)
+    links = list(zip(order[1:], order[:-1]))          # (outer, inner)
+    ops = []
+    for o, i in links:
+        ops.append(["add", o, ["ret", ["D", i]], None])
+    def script_for(o):
+        sops = []
+        for _ in range(rng.randrange(1, 3)):
+            r = rng.random()
+            t = o if r < 0.5 else rng.choice(order)
+            kind = rng.random()
+            if kind < 0.6:
+                sops.append(["add", t, rng.choice([["pass"], ["ret", ["I", rng.randrange(10)]], ["raise", 1]]),
+                             None if rng.random() < 0.6 else ["ret", ["I", 7]]])
+            elif kind < 0.75:
+                sops.append(["unpause", t])
+            elif kind < 0.85:
+                sops.append(["pause", t])
+            else:
+                sops.append(["cb", t, rng.randrange(10)])
+        return ["script", sops, rng.choice([["pass"], ["ret", ["I", rng.randrange(10)]], ["raise", 2], ["ret", ["F", 1]]])]
+    for o in order:
+        for _ in range(rng.randrange(0, 4)):
+            b = script_for(o) if rng.random() < 0.5 else rng.choice([["pass"], ["ret", ["I", rng.randrange(10)]], ["raise", 0]])
+            ops.append(["add", o, b, None] if rng.random() < 0.7 else ["add", o, b, b])
+    fires = [[rng.choice(["cb", "cb", "eb"]), o, rng.randrange(5)] for o, _ in links]
+    if rng.random() < 0.5:
+        fires.reverse()
+    ops += fires
+    inner = order[0]
+    if rng.random() < 0.3:
+        ops += [["pause", inner], [rng.choice(["cb", "eb"]), inner, rng.randrange(5)], ["unpause", inner]]
+    else:
+        ops.append([rng.choice(["cb", "cb", "eb"]), inner, rng.randrange(5)])
+    for _ in range(rng.randrange(0, 3)):
+        ops.append(["add", rng.choice(order), ["pass"], None])
+    return {"canc": [["none"]] * nd, "ops": ops}
+
+
 W = {"add": 6, "cb": 3, "eb": 1.5, "pause": 1.5, "unpause": 1.5}
 
 
@@ -136,6 +181,11 @@ def gen(rng, tier):
         cases.append(chain_scenario(rng))
     for _ in range(1000 if tier == "quick" else 15000):
         cases.append(K.rand_program(rng, rng.randrange(1, 7), rng.randrange(2, 21), weights=W, cancellers=False))
+    # callbacks that run kernel operations (re-entrancy)
+    for _ in range(700 if tier == "quick" else 12000):
+        cases.append(reentrant_scenario(rng))
+    for _ in range(500 if tier == "quick" else 12000):
+        cases.append(K.rand_script_program(rng, rng.randrange(1, 6), rng.randrange(2, 16), cancellers=False))
     # Deferred debugging must not change anything observable
     cases += K.with_debug(cases, rng, 0.08 if tier == "quick" else 0.04)
     return cases
@@ -148,6 +198,19 @@ def corpus():
         word_case("A1Pa0Ub"),
         word_case("A1p0au"),                   # inner paused by the user, fired, callbacks added, unpaused
         word_case("01A"),                      # inner already fired: its result is taken
+        # seeded C01-C: outer waits on inner; a remaining callback of outer adds a callback to outer while it runs
+        # inside inner's walk: it must only be appended and run after the running one, with its result
+        {"canc": [["none"]] * 2, "ops": [["add", 1, ["ret", ["D", 0]], None],
+                                         ["add", 1, ["script", [["add", 1, ["ret", ["I", 3]], None]], ["ret", ["I", 2]]], None],
+                                         ["add", 1, ["pass"], None], ["cb", 1, 1], ["add", 0, ["pass"], None], ["cb", 0, 5]]},
+        {"canc": [["none"]] * 2, "ops": [["cb", 0, 5], ["pause", 0], ["add", 1, None, ["ret", ["D", 0]]],
+                                         ["add", 1, None, ["script", [["add", 1, ["pass"], ["pass"]]], ["raise", 2]]],
+                                         ["add", 1, ["ret", ["I", 1]], ["ret", ["I", 2]]], ["eb", 1, 1], ["unpause", 0]]},
+        # a callback that pauses / fires / adds to other Deferreds, and one hitting AlreadyCalledError inside
+        {"canc": [["none"]] * 3, "ops": [["add", 0, ["script", [["cb", 1, 4], ["pause", 0], ["add", 2, ["pass"], None]], ["pass"]], None],
+                                         ["add", 0, ["script", [["cb", 1, 5]], ["ret", ["I", 1]]], ["pass"]],
+                                         ["add", 0, None, ["ret", ["I", 9]]], ["add", 1, ["script", [["cb", 2, 6]], ["ret", ["D", 2]]], None],
+                                         ["cb", 0, 0], ["unpause", 0]]},
         word_case("A1Xh0a"),                   # a callback raising SystemExit: the next errback must get it
         word_case("0XXha"),                    # GeneratorExit raised by an errback
         {"canc": [["none"]] * 2, "ops": [["add", 1, ["ret", ["D", 0]], None], ["cb", 1, 1], ["add", 0, ["raise", 103], None],
@@ -172,6 +235,8 @@ def shrink(case):
 
 
 def histogram(case, obs):
+    if K.has_scripts(case):
+        return f"with scripts nd={len(case['canc'])}" + (" (debug)" if case.get("debug") else "")
     if case.get("debug"):
         return "under defer.setDebugging(True)"
     if case.get("word"):
@@ -183,9 +248,9 @@ def histogram(case, obs):
 SPEC = Spec(
     pid="C01",
     gen=gen, impl=K.run_program, oracle=oracle, corpus=corpus, shrink=shrink,
-    coq_header="From TwLib Require Import DeferredK DeferredKShow.\nFrom C01 Require Import Run.",
-    coq_fn="run_show",
-    to_coq=K.coq_program,
+    coq_header="From TwLib Require Import DeferredK DeferredKShow DeferredKR DeferredKRShow.\nFrom C01 Require Import Run.",
+    coq_fn="show_any",
+    to_coq=K.coq_any_program,
     nontrivial=lambda c, o: "R" in o,
     histogram=histogram,
     describe=lambda c: {"n_deferreds": len(c["canc"]), "ops": c["ops"][:14], "debug": bool(c.get("debug"))},
@@ -195,10 +260,11 @@ SPEC = Spec(
          "Deferreds waiting on each other, late callbacks, pauses on waiting Deferreds, unbalanced unpauses); 1 000 "
          "(15 000) random programs over 1-6 Deferreds, 2-20 operations, callback behaviours {value, None, Failure, "
          "Deferred d_i, raise (Exception subclasses and GeneratorExit / asyncio.CancelledError / SystemExit / "
-         "KeyboardInterrupt / a BaseException subclass), pass-through} on either or both sides.  8% (4%) of all cases once more under defer.setDebugging(True).  non-trivial = at least one user callback ran; "
+         "KeyboardInterrupt / a BaseException subclass), pass-through} on either or both sides.  700 (12 000) re-entrant scenarios and 500 (12 000) random programs whose callbacks run scripts of kernel operations (add to the running or to any other Deferred, callback / errback / pause / unpause / cancel), evaluated on the re-entrant kernel DeferredKR; 8% (4%) of all cases once more under defer.setDebugging(True).  non-trivial = at least one user callback ran; "
          "distinct by (case, observation)",
     trusted=["hand-written kernel model coq/Lib/DeferredK.v (tied by this correspondence run only)",
-             "callbacks are fixed behaviours; callbacks that call back into Deferred methods are not modelled",
+             "callbacks are fixed behaviours or scripts of kernel operations followed by a fixed behaviour (re-entrant kernel "
+             "coq/Lib/DeferredKR.v, which has no refinement theorem of its own yet: see design.d/C01.md)",
              "the recursive reference interpreter in harness/c01.py (oracle), harness/deferredk.py driver"],
     assumptions=["no cancel() in C01 programs (C03 covers it); chainDeferred, timeouts, debug mode outside the model"],
 )
